@@ -17,7 +17,7 @@ SHARDS = {"quick": 8, "thorough": 16}
 RULE = ("authentic packets from the independent V2 encoder (frame lengths 0,1,15,16,17,31,32,33,100,255 and random); faults: "
         "every single-bit flip at every bit position and every truncation length (exhaustive per packet), single-byte "
         "substitutions (8 values/position quick, all 255 for 3 packets thorough), random multi-byte corruptions, length-field "
-        "rewrites; each fault class also replayed through LAN.send with the model device sending the corrupted packet. Oracle: "
+        "rewrites; each fault class also replayed through LAN.send with the model device sending the corrupted packet (on a V2 connection, and inside an intact V3 envelope on an authenticated V3 connection). Oracle: "
         "_Packet.decode raises ProtocolError (returning the original frame is tolerated and counted; any other result or "
         "exception type is a violation); in half of the cases the authentic packet is decoded first, as on a live connection. Non-trivial: corrupted != authentic, >= 6 bytes, still starts with 5A5A. Distinct by (packet, fault).")
 ASSUMPTIONS = ["fault model does not re-sign (a correctly re-signed packet is a different authentic packet; containment of those is C09)"]
@@ -78,16 +78,28 @@ def check_case(case: dict):
     bad = corrupt(pkt, case["fault"])
     if bad == pkt:
         return None
-    if case.get("via") == "send":
+    if case.get("via") in ("send", "send3"):
         net = vloop.Net()
         out = {}
+        v3 = case["via"] == "send3"
+        tok, key = hashlib.sha512(b"c03").digest(), hashlib.sha256(b"c03").digest()
 
         async def main(loop):
-            dev = SimDevice(loop, version=2, device_id=1, ac=ModelAC())
-            dev.default_action = ("raw", bad)
+            dev = SimDevice(loop, version=3 if v3 else 2, device_id=1, ac=ModelAC(), token=tok, key=key)
+            if v3:
+                # the altered V2 packet travels inside an intact, correctly tagged V3 envelope
+                def on_data(dev_, conn, fr):
+                    pkt3 = rc.v3_encode_response(conn.session_keys[-1], conn.resp_counter, bad)
+                    conn.resp_counter += 1
+                    return ("raw", pkt3)
+                dev.on_data = on_data
+            else:
+                dev.default_action = ("raw", bad)
             net.listen("10.0.0.9", 6444, dev)
             lan = LAN("10.0.0.9", 6444, 1)
             try:
+                if v3:
+                    await lan.authenticate(tok, key)
                 out["frames"] = await lan.send(_frame(20), retries=1)
             except Exception as e:
                 out["exc"] = e
@@ -208,7 +220,7 @@ def run(ctx) -> None:
         for f in faults:
             s += 1
             if ctx.mine(s):
-                case = dict(base, fault=f)
+                case = dict(base, fault=f, via="send3" if s % 3 == 0 else "send")
                 ctx.check(case, lambda c: _run_one(ctx, c))
     ctx.sweep("fault classes through LAN.send", s, not ctx.quick)
 
@@ -221,7 +233,7 @@ def run(ctx) -> None:
         st.tuples(st.just("multi"), st.lists(st.tuples(st.integers(0, 400), st.integers(1, 255)).map(list), min_size=2, max_size=8)).map(list),
     )
     cases = st.fixed_dictionaries({"frame": hexb(gens.frames_bytes(255)), "id": gens.device_ids(64), "fault": fault, "prime": st.booleans()})
-    send_cases = st.fixed_dictionaries({"frame": hexb(gens.frames_bytes(120)), "id": gens.device_ids(64), "fault": fault, "via": st.just("send")})
+    send_cases = st.fixed_dictionaries({"frame": hexb(gens.frames_bytes(120)), "id": gens.device_ids(64), "fault": fault, "via": st.sampled_from(["send", "send3"])})
 
     def runner(case):
         return _run_one(ctx, case)
